@@ -89,43 +89,43 @@ AltBits(b) == IF b = 128 THEN 256 ELSE IF b = 192 THEN 128 ELSE 192
 Refused == [panic |-> FALSE, err |-> TRUE, againerr |-> TRUE, propsame |-> TRUE]
 \* the key length in a variable-length (TLV) attribute -- another attribute format, hence another attribute: unsupported
 TlvKeyLen(t, bits) == [t EXCEPT !.attr = "tlv", !.at = 14, !.av = 0, !.avl = << bits \div 256, bits % 256 >>]
-IkePropVector(su, grp, wire) ==
-  LET p == IkeProp(su, grp) IN
-  Vector("ikeprop", << Step("proposal_roundtrip", "C11", FALSE, [kind |-> "ike", prop |-> p, wire |-> wire, alt |-> AltBits(su.encr)],
+IkePropVector(su, grp, mode) ==
+  LET p == IkeProp(su, grp) wire == (mode = "wire") scratch == (mode = "scratch") IN
+  Vector("ikeprop", << Step("proposal_roundtrip", "C11", FALSE, [kind |-> "ike", prop |-> p, wire |-> wire, scratch |-> scratch, alt |-> AltBits(su.encr)],
       [panic |-> FALSE, err |-> FALSE, encr |-> AesName(su.encr), integ |-> su.integ, prf |-> su.prf, dh |-> "modp-" \o ToString(grp),
        back |-> Sorted(p.tr), backproto |-> 1, appendsafe |-> TRUE, propsame |-> TRUE,
        back2 |-> Sorted([j \in 1..Len(p.tr) |-> IF p.tr[j].tt = 1 THEN [p.tr[j] EXCEPT !.av = AltBits(su.encr)] ELSE p.tr[j]])]) >>
     \o  \* the same proposal with one element replaced by an unsupported one, or removed: building the SA must fail
     [i \in 1..4 |-> Step("proposal_roundtrip", "C11", FALSE,
-        [kind |-> "ike", prop |-> [p EXCEPT !.tr = [j \in 1..4 |-> IF j = i THEN [p.tr[j] EXCEPT !.tid = IF i = 1 THEN 13 ELSE 9] ELSE p.tr[j]]], wire |-> wire],
+        [kind |-> "ike", prop |-> [p EXCEPT !.tr = [j \in 1..4 |-> IF j = i THEN [p.tr[j] EXCEPT !.tid = IF i = 1 THEN 13 ELSE 9] ELSE p.tr[j]]], wire |-> wire, scratch |-> scratch],
         Refused)]
     \o [i \in 1..4 |-> Step("proposal_roundtrip", "C11", FALSE,
-        [kind |-> "ike", prop |-> [p EXCEPT !.tr = SelectSeq(p.tr, LAMBDA t : t.tt # i)], wire |-> wire], Refused)]
+        [kind |-> "ike", prop |-> [p EXCEPT !.tr = SelectSeq(p.tr, LAMBDA t : t.tt # i)], wire |-> wire, scratch |-> scratch], Refused)]
     \o << Step("proposal_roundtrip", "C11", FALSE,
-        [kind |-> "ike", prop |-> [p EXCEPT !.tr = [j \in 1..4 |-> IF j = 1 THEN [p.tr[1] EXCEPT !.av = 64] ELSE p.tr[j]]], wire |-> wire], Refused),
+        [kind |-> "ike", prop |-> [p EXCEPT !.tr = [j \in 1..4 |-> IF j = 1 THEN [p.tr[1] EXCEPT !.av = 64] ELSE p.tr[j]]], wire |-> wire, scratch |-> scratch], Refused),
           Step("proposal_roundtrip", "C11", FALSE,
-        [kind |-> "ike", prop |-> [p EXCEPT !.tr = [j \in 1..4 |-> IF j = 1 THEN [p.tr[1] EXCEPT !.attr = "none", !.at = 0, !.av = 0] ELSE p.tr[j]]], wire |-> wire], Refused) >>
+        [kind |-> "ike", prop |-> [p EXCEPT !.tr = [j \in 1..4 |-> IF j = 1 THEN [p.tr[1] EXCEPT !.attr = "none", !.at = 0, !.av = 0] ELSE p.tr[j]]], wire |-> wire, scratch |-> scratch], Refused) >>
     \o [i \in 1..3 |-> Step("proposal_roundtrip", "C11", FALSE,
-        [kind |-> "ike", prop |-> [p EXCEPT !.tr = [j \in 1..4 |-> IF j = 1 THEN TlvKeyLen(p.tr[1], << 128, 192, 256 >>[i]) ELSE p.tr[j]]], wire |-> wire], Refused)])
-ChildPropVector(e, a, d, x, wire) ==
-  LET p == ChildProp(e, a, d, x) IN
-  Vector("childprop", << Step("proposal_roundtrip", "C11", FALSE, [kind |-> "child", prop |-> p, wire |-> wire],
+        [kind |-> "ike", prop |-> [p EXCEPT !.tr = [j \in 1..4 |-> IF j = 1 THEN TlvKeyLen(p.tr[1], << 128, 192, 256 >>[i]) ELSE p.tr[j]]], wire |-> wire, scratch |-> scratch], Refused)])
+ChildPropVector(e, a, d, x, mode) ==
+  LET p == ChildProp(e, a, d, x) wire == (mode = "wire") scratch == (mode = "scratch") IN
+  Vector("childprop", << Step("proposal_roundtrip", "C11", FALSE, [kind |-> "child", prop |-> p, wire |-> wire, scratch |-> scratch],
       IF a = "none" THEN [panic |-> FALSE, propsame |-> TRUE]      \* absent integrity: the property does not say whether such a proposal must be accepted
       ELSE [panic |-> FALSE, err |-> FALSE, encr |-> e, integ |-> a, dh |-> d, esn |-> x, back |-> Sorted(p.tr), backproto |-> 3, appendsafe |-> TRUE, propsame |-> TRUE]),
-    Step("proposal_roundtrip", "C11", FALSE, [kind |-> "child", prop |-> [p EXCEPT !.tr = [j \in 1..Len(p.tr) |-> IF j = 1 THEN [p.tr[1] EXCEPT !.av = 129] ELSE p.tr[j]]], wire |-> wire],
+    Step("proposal_roundtrip", "C11", FALSE, [kind |-> "child", prop |-> [p EXCEPT !.tr = [j \in 1..Len(p.tr) |-> IF j = 1 THEN [p.tr[1] EXCEPT !.av = 129] ELSE p.tr[j]]], wire |-> wire, scratch |-> scratch],
       Refused),
-    Step("proposal_roundtrip", "C11", FALSE, [kind |-> "child", prop |-> [p EXCEPT !.tr = [j \in 1..Len(p.tr) |-> IF p.tr[j].tt = 5 THEN [p.tr[j] EXCEPT !.tid = 2] ELSE p.tr[j]]], wire |-> wire],
+    Step("proposal_roundtrip", "C11", FALSE, [kind |-> "child", prop |-> [p EXCEPT !.tr = [j \in 1..Len(p.tr) |-> IF p.tr[j].tt = 5 THEN [p.tr[j] EXCEPT !.tid = 2] ELSE p.tr[j]]], wire |-> wire, scratch |-> scratch],
       Refused),
-    Step("proposal_roundtrip", "C11", FALSE, [kind |-> "child", prop |-> [p EXCEPT !.tr = [j \in 1..Len(p.tr) |-> IF j = 1 THEN TlvKeyLen(p.tr[1], 256) ELSE p.tr[j]]], wire |-> wire],
+    Step("proposal_roundtrip", "C11", FALSE, [kind |-> "child", prop |-> [p EXCEPT !.tr = [j \in 1..Len(p.tr) |-> IF j = 1 THEN TlvKeyLen(p.tr[1], 256) ELSE p.tr[j]]], wire |-> wire, scratch |-> scratch],
       Refused),
     \* every ESN identifier but 0 and 1 is unknown
-    Step("proposal_roundtrip", "C11", FALSE, [kind |-> "child", prop |-> [p EXCEPT !.tr = [j \in 1..Len(p.tr) |-> IF p.tr[j].tt = 5 THEN [p.tr[j] EXCEPT !.tid = 65535] ELSE p.tr[j]]], wire |-> wire],
+    Step("proposal_roundtrip", "C11", FALSE, [kind |-> "child", prop |-> [p EXCEPT !.tr = [j \in 1..Len(p.tr) |-> IF p.tr[j].tt = 5 THEN [p.tr[j] EXCEPT !.tid = 65535] ELSE p.tr[j]]], wire |-> wire, scratch |-> scratch],
       Refused) >>)
 
 PropVectors ==
-  { IkePropVector(s, grp, w) : s \in Suites27, grp \in {2, 14}, w \in BOOLEAN }
+  { IkePropVector(s, grp, w) : s \in Suites27, grp \in {2, 14}, w \in {"wire", "direct", "scratch"} }
   \cup { ChildPropVector(e, a, d, x, w) : e \in Advertised("encrk"), a \in {"none", "md5", "sha1", "sha256"}, d \in {"none", "modp-2", "modp-14"},
-                                        x \in {"esn-off", "esn-on"}, w \in BOOLEAN }
+                                        x \in {"esn-off", "esn-on"}, w \in {"wire", "direct", "scratch"} }
 
 Init == stage = 0 /\ kind = "" /\ id = 0
 Next ==
